@@ -454,9 +454,11 @@ class Check:
 
     def bad(self, rule, key, msg, where=""):
         """an obligation that fails; suppressed only by an exact known-finding key"""
+        full = "%s|%s" % (rule, key)
+        if any(v["rule"] == rule and v["key"] == key for v in self.violations):
+            return
         self.obligations += 1
         self.instances.append("%s|%s" % (rule, key))
-        full = "%s|%s" % (rule, key)
         if full in self.known:
             self.known_hits.append((full, self.known[full]))
             self.discharged += 0
